@@ -165,7 +165,7 @@ PROPS = {
                 "final values, after every rejected vector with fresh(last accepted). Distinct = (ansatz, molecule, mapping, ordering, "
                 "step kind) tuples; non-trivial = run with >=3 steps of >=2 kinds or >=1 rejected vector.",
         "probes": ["C07.in_place_path", "C07.rebuild_path", "C07.zero_free_vector", "C07.k>=3", "C07.random_keyword_through_seam", "C07.adapt_operator_added",
-                   "C07.update_with_already_recorded_vector", "C07.update_with_edited_var_params_object"],
+                   "C07.update_with_already_recorded_vector", "C07.update_with_edited_var_params_object", "C07.caller_owned_parameter_array_reused"],
         "components_real": ["UCCSD (RHF/ROHF/UHF), RUCC(1/3), UpCCGSD, UCCGD, HEA, QMF, QCC, ILC, VSQS, pUCCD, ADAPTAnsatz, VariationalCircuitAnsatz, "
                             "fermion_to_qubit_mapping, SecondQuantizedMolecule + PySCF (data producers)"],
         "components_stub": [],
@@ -207,7 +207,7 @@ PROPS = {
                 "integrals, arguments unchanged. Distinct = (step kind, solver kind, molecule, shots) tuples; non-trivial = run "
                 "with >=3 steps of >=2 kinds or >=1 refusal.",
         "probes": ["C13.returned_arrays_modified_by_caller", "C13.get_rdm_again_after_caller_modified_result", "C13.resample_after_get_rdm",
-                   "C13.spin_resolved_form", "C13.padding_with_frozen_orbitals", "C13.unrestricted_form"],
+                   "C13.spin_resolved_form", "C13.padding_with_frozen_orbitals", "C13.unrestricted_form", "C13.orbitals_rotated_between_solver_runs", "C13.caller_owned_parameter_array_reused"],
         "components_real": ["FCISolver / CCSDSolver / MP2Solver (PySCF back ends) incl. their simulate-before-get_rdm protocol, VQESolver.get_rdm "
                             "(exact and sampled, resample route), SecondQuantizedMolecule.energy_from_rdms, pad_rdms_with_frozen_orbitals_restricted, "
                             "cirq backend, fermion_to_qubit_mapping"],
